@@ -440,3 +440,83 @@ Proof.
     destruct Hinvn as (HRn & _). pose proof HRn as (Hen & _).
     apply Rel_set_env; [exact HRn|]. apply bind_list_agree; [exact Hen|exact Hen|exact Hrs]. }
 Qed.
+
+(* ---- program level (the loop directly in the function body) ----------------------------------------------------------- *)
+Require Import Snax.Proofs.C06LoopProofs.
+
+Lemma build_loop_some whole o nf x pl : loop_plan whole o nf x = Some pl -> exists pro x', build_loop o x pl = Some (pro, x').
+Proof. destruct x; try discriminate. intros _. cbn [build_loop]. eexists. eexists. reflexivity. Qed.
+
+Lemma split_loop_spec whole o nf : forall b pre x post pl,
+  split_loop whole o nf b = Some (pre, x, post, pl) ->
+  b = pre ++ x :: post /\ loop_plan whole o nf x = Some pl
+  /\ exists pro x', build_loop o x pl = Some (pro, x') /\ loop_overlap_at whole o nf b = Some (pre ++ pro ++ x' :: post).
+Proof.
+  induction b as [|y b IH]; intros pre x post pl H; [discriminate|]. cbn [split_loop] in H.
+  cbn [loop_overlap_at]. rewrite loop_overlap_for_plan.
+  destruct (loop_plan whole o nf y) as [pl0|] eqn:Ep.
+  - inversion H; subst. destruct (build_loop_some _ _ _ _ _ Ep) as (pro & x' & Hb).
+    split; [reflexivity|]. split; [exact Ep|]. exists pro, x'. split; [exact Hb|]. rewrite Hb. reflexivity.
+  - destruct (split_loop whole o nf b) as [[[[pre0 y0] post0] pl0]|] eqn:Es; [|discriminate]. inversion H; subst.
+    destruct (IH _ _ _ _ eq_refl) as (Hb & Hp & pro & x' & Hbl & Hov).
+    split; [cbn [app]; f_equal; exact Hb|]. split; [exact Hp|]. exists pro, x'. split; [exact Hbl|].
+    rewrite Hov. reflexivity.
+Qed.
+
+Lemma Rel_refl F a m : Rel F a [] m m.
+Proof.
+  unfold Rel. repeat split; auto. induction (tr m); constructor; [apply ev_rel_refl|assumption].
+Qed.
+
+Theorem loop_overlap_preserves orc p o nf p' args :
+  loop_overlap p o nf = Some p' ->
+  loop_overlap_side_ok p o nf = true ->
+  trace_sim_b (run orc p args) (run orc p' args) = true.
+Proof.
+  intros Hov Hside. unfold loop_overlap_side_ok in Hside.
+  destruct (split_loop (p_body p) o nf (p_body p)) as [[[[pre x] post] pl]|] eqn:Es; [|discriminate].
+  destruct (split_loop_spec _ _ _ _ _ _ _ _ Es) as (Hb & Hp & pro & x' & Hbl & Hat).
+  apply andb_true_iff in Hside as [Hside Hsafe]. apply andb_true_iff in Hside as [Hside Hpost].
+  apply andb_true_iff in Hside as [Hlside Hpre].
+  unfold loop_overlap, rw_block in Hov. rewrite Hat in Hov. inversion Hov; subst p'. clear Hov.
+  set (F := loop_F p nf pl) in *. set (a := lp_a pl) in *.
+  unfold run, final_state. cbn [p_body p_params]. rewrite Hb.
+  replace (pre ++ pro ++ x' :: post) with (pre ++ (pro ++ [x']) ++ post) by (rewrite <- !app_assoc; reflexivity).
+  rewrite !exec_block_app. cbn [exec_block].
+  unfold init_state. cbn [p_params].
+  set (m0 := mkSt (bind_list (p_params p) args (fun _ : val => 0)) (o_adv orc 0%nat) (fun _ : acc => []) 1%nat []).
+  pose proof (exec_rel_block orc F a [] pre (block_reads_off_forallb F pre Hpre) (or_introl eq_refl) m0 m0 (Rel_refl F a m0)) as H1.
+  pose proof (loop_stmt_rel orc F (p_body p) o nf x pl pro x' Hp Hbl Hlside _ _ H1) as H2.
+  destruct (after_safe orc F a post (map fst (lp_fs pl)) _ _ Hsafe (block_reads_off_forallb F post Hpost) H2)
+    as [fs' (_ & _ & _ & _ & Ht)].
+  apply trace_rel_sim_b. apply Forall2_rev.
+  rewrite exec_block_app in Ht. cbn [exec_block] in Ht. exact Ht.
+Qed.
+
+(* independent of what follows the loop: cut both programs right behind the loop *)
+Theorem loop_overlap_inside_rule orc p o nf p' args :
+  loop_overlap p o nf = Some p' ->
+  loop_inside_side_ok p o nf = true ->
+  exists pre x post pro x',
+    p_body p = pre ++ x :: post /\ p_body p' = pre ++ pro ++ x' :: post
+    /\ loop_overlap_for (p_body p) o nf x = Some (pro, x')
+    /\ trace_sim_b (run orc (mkProg (p_params p) (pre ++ [x])) args)
+                   (run orc (mkProg (p_params p) (pre ++ pro ++ [x'])) args) = true.
+Proof.
+  intros Hov Hside. unfold loop_inside_side_ok in Hside.
+  destruct (split_loop (p_body p) o nf (p_body p)) as [[[[pre x] post] pl]|] eqn:Es; [|discriminate].
+  destruct (split_loop_spec _ _ _ _ _ _ _ _ Es) as (Hb & Hp & pro & x' & Hbl & Hat).
+  apply andb_true_iff in Hside as [Hlside Hpre].
+  unfold loop_overlap, rw_block in Hov. rewrite Hat in Hov. inversion Hov; subst p'. clear Hov.
+  exists pre, x, post, pro, x'. split; [exact Hb|]. split; [reflexivity|]. split.
+  { rewrite loop_overlap_for_plan, Hp. exact Hbl. }
+  set (F := loop_F p nf pl) in *. set (a := lp_a pl) in *.
+  unfold run, final_state. cbn [p_body p_params].
+  replace (pre ++ pro ++ [x']) with (pre ++ (pro ++ [x'])) by reflexivity.
+  rewrite !(exec_block_app orc pre). cbn [exec_block].
+  unfold init_state. cbn [p_params].
+  set (m0 := mkSt (bind_list (p_params p) args (fun _ : val => 0)) (o_adv orc 0%nat) (fun _ : acc => []) 1%nat []).
+  pose proof (exec_rel_block orc F a [] pre (block_reads_off_forallb F pre Hpre) (or_introl eq_refl) m0 m0 (Rel_refl F a m0)) as H1.
+  pose proof (loop_stmt_rel orc F (p_body p) o nf x pl pro x' Hp Hbl Hlside _ _ H1) as (_ & _ & _ & _ & Ht).
+  apply trace_rel_sim_b. apply Forall2_rev. exact Ht.
+Qed.
